@@ -230,7 +230,7 @@ def run(pid, kani_units, tier='quick', seed=0, only=None):
         return [{'harness': '%s:*' % '+'.join(kani_units), 'status': 'undecided', 'reason': 'harness files: %s' % e, 'cmd': '',
                  'output': '', 'counts_as_proof': False, 'baseline': False, 'bound': '', 'wall_s': 0.0}]
     selected = [h for h in harnesses
-                if (h['props'] is None or pid in h['props'] or pid == 'rebaseline') and (tier == 'thorough' or h['tier'] == 'quick')]
+                if (h['props'] is None or pid in h['props'] or pid == 'rebaseline') and (h['tier'] == 'quick' or (tier == 'thorough' and h['tier'] == 'thorough') or pid == 'rebaseline')]
     if only:
         selected = [h for h in harnesses if h['harness'] in only]
     skipped = [h for h in harnesses if h not in selected and (h['props'] is None or pid in h['props'])]
